@@ -7963,6 +7963,9 @@ def cimvalue(value, type):
 
     # Arrays
     if isinstance(value, list):
+        if any(isinstance(v, (list, tuple)) for v in value):
+            raise TypeError(
+                _format("Input value is a nested array: {0!A}", value))
         return [cimvalue(v, type) for v in value]
 
     # Boolean type
